@@ -94,21 +94,48 @@ def gen_config(rng, tier, flavor="db"):
         if cfg["ploidy"] == 1 and cfg["initial"] == "dup_pairs":
             cfg["initial"] = "random"
         n_pos = len(cfg["n_alleles"])
-    if flavor in ("db", "cache") and rng.random() < 0.008:
+    if flavor in ("db", "cache") and rng.random() < 0.012:
         # rare long loci (beyond int8 / packed-key / table sizes): diploid, one or two reads, one iteration
-        cfg["ploidy"] = rng.choice([2, 2, 3])
+        cfg["ploidy"] = rng.choice([2, 3, 3, 4])
         cfg["n_alleles"] = [rng.choice([2, 2, 2, 3]) for _ in range(rng.choice([23, 40, 70, 130, 140]))]
         cfg["n_reads"] = rng.choice([1, 2])
         cfg["steps"] = 1
         cfg["chains"] = 1
         cfg["temperatures"] = cfg["temperatures"][-2:]
         cfg["long_locus"] = True
+        # haplotypes that are copies of each other except for a few leading / trailing sites: whatever summarises a long
+        # haplotype segment (a packed key, a hash, a truncated comparison) must still tell them apart
+        cfg["initial"] = rng.choice(["near_dup_head", "near_dup_tail", "near_dup_head", "dup_all", "random"])
+        # reads that pin the body of the haplotypes to two truths and say nothing about a few leading (trailing) sites: the
+        # mutation sweep then keeps rows that differ ONLY there, so the structural moves meet near-duplicates in every iteration
+        cfg["read_style"] = rng.choice(["plain", "two_truths_gap_head", "two_truths_gap_head", "two_truths_gap_tail"])
+        if cfg["read_style"] != "plain":
+            cfg["ploidy"] = rng.choice([3, 4, 4])
+            cfg["initial"] = "truth_rows"
+            cfg["n_reads"] = 4
+            cfg["counts"] = "none"
+            cfg["steps"] = 2
         n_pos = len(cfg["n_alleles"])
     if cfg["n_intervals"] is not None:
         cfg["n_intervals"] = max(1, min(cfg["n_intervals"], n_pos))
     if cfg["entry"] == "direct" and cfg["n_reads"] == 0:
         cfg["n_reads"] = 1
     return cfg
+
+
+def long_truths(cfg):
+    """Two haplotypes differing at a few sites away from the uninformative end, and the uninformative sites."""
+    rng = _random.Random(cfg["data_seed"] ^ 0x7777)
+    n_alleles = cfg["n_alleles"]
+    n = len(n_alleles)
+    a = [rng.randrange(x) for x in n_alleles]
+    b = list(a)
+    head = cfg["read_style"] == "two_truths_gap_head"
+    gaps = list(range(3)) if head else list(range(n - 3, n))
+    region = range(n - 8, n) if head else range(0, 8)
+    for j in rng.sample(list(region), 3):
+        b[j] = (b[j] + 1) % n_alleles[j]
+    return a, b, gaps
 
 
 def gen_reads(cfg):
@@ -120,6 +147,17 @@ def gen_reads(cfg):
     amax = max(n_alleles)
     n_reads = cfg["n_reads"]
     reads = np.zeros((n_reads, n_pos, amax), dtype=np.float64)
+    if cfg.get("read_style", "plain") != "plain":
+        a, b, gaps = long_truths(cfg)
+        for r in range(n_reads):
+            hap = a if r % 2 == 0 else b
+            for j in range(n_pos):
+                if j in gaps:
+                    reads[r, j, :] = np.nan
+                    continue
+                reads[r, j, : n_alleles[j]] = 0.01 / max(1, n_alleles[j] - 1)
+                reads[r, j, hap[j]] = 0.99
+        return reads, None
     truth = [[rng.randrange(n_alleles[j]) for j in range(n_pos)] for _ in range(max(1, cfg["ploidy"] // 2 + 1))]
     for r in range(n_reads):
         hap = rng.choice(truth)
@@ -162,6 +200,35 @@ def gen_initial(cfg, rng_seed):
         elif mode == "dup_pairs":
             base = [hap() for _ in range(max(1, cfg["ploidy"] // 2))]
             g = [list(base[i % len(base)]) for i in range(cfg["ploidy"])]
+        elif mode == "truth_rows":
+            a, b, gaps = long_truths(cfg)
+            g = []
+            for i in range(cfg["ploidy"]):
+                row = list(a if i % 2 == 0 else b)
+                for j in gaps:
+                    row[j] = rng.randrange(n_alleles[j])
+                g.append(row)
+            rng.shuffle(g)
+        elif mode in ("near_dup_head", "near_dup_tail"):
+            h = hap()
+            n = len(n_alleles)
+
+            def variant(row):
+                row = list(row)
+                for _k in range(rng.choice([1, 1, 2])):
+                    j = rng.randrange(min(3, n)) if mode == "near_dup_head" else n - 1 - rng.randrange(min(3, n))
+                    if n_alleles[j] > 1:
+                        row[j] = (row[j] + 1 + rng.randrange(n_alleles[j] - 1)) % n_alleles[j]
+                return row
+
+            g = [list(h)]
+            if cfg["ploidy"] > 1:
+                g.append(variant(h))
+            while len(g) < cfg["ploidy"]:
+                # further rows: unrelated haplotypes, exact copies, or further near-copies
+                k = rng.randrange(4)
+                g.append(hap() if k < 2 else (list(rng.choice(g)) if k == 2 else variant(h)))
+            rng.shuffle(g)
         else:
             g = [hap() for _ in range(cfg["ploidy"])]
         out.append(np.array(g, dtype=np.int8))
